@@ -10,7 +10,7 @@ of the data file is left open and that a fresh handle equals the model.  The
 parent treats death by signal as a violation - the crash is observed, not
 suffered.
 """
-import os, gc, json, shutil, itertools, traceback
+import itertools, os, gc, json, shutil, itertools, traceback
 import numpy as np
 from hypothesis import strategies as st
 from vlib.runner import Outcome, hyp_search, enum_search, shard_seed, NSHARDS, HarnessError
@@ -43,7 +43,9 @@ def psets():
     return [GPARAMS,
             [dict(chunklen=c), dict(chunklen=c * 7 // 10), dict(chunklen=c // 50, startindex=c // 100, endindex=c * 2)],
             [dict(chunklen=c * 6 // 5, stepsize=c * 2 // 5), dict(chunklen=300, stepsize=100, startindex=100, endindex=5000),
-             dict(chunklen=500, startindex=0, endindex=20000)]]
+             dict(chunklen=500, startindex=0, endindex=20000)],
+            # 3 = generators with one or two frames only, so that short schedules reach 'closed right after its LAST chunk'
+            [dict(chunklen=N), dict(chunklen=N // 2), dict(chunklen=N // 2 + 1)]]
 
 
 def _scale(ctx):
@@ -437,12 +439,21 @@ def st_schedule(draw):
             acts.append([k])
     order = draw(st.permutations([0, 1, 2, 'x', 'y']))
     finish = [['exit'] if o in ('x', 'y') else [draw(st.sampled_from(['exhaust', 'close', 'drop'])), o] for o in order]
-    return {'actions': acts, 'finish': finish, 'hmode': draw(st.sampled_from(['r+', 'r+', 'r'])), 'pset': draw(st.sampled_from([0, 1, 2]))}
+    return {'actions': acts, 'finish': finish, 'hmode': draw(st.sampled_from(['r+', 'r+', 'r'])), 'pset': draw(st.sampled_from([0, 1, 2, 3]))}
 
 
 def fixed_specs():
     """Hand-laid interleavings for the other parameter sets: generators with adjacent frames advanced in turn; writes just before
     and just behind the end of the frame a generator has returned, then the next advance."""
+    nframes = {0: 1, 1: 2, 2: 2}        # parameter set 3
+    for ga, gb in ((0, 1), (0, 2), (1, 2), (2, 1)):
+        # generator ga hands out its LAST chunk and is then closed / dropped by its consumer while gb, which started earlier and
+        # still has a frame to go, lives on and is advanced afterwards
+        for how in ('close', 'drop'):
+            acts = [['start', ga], ['start', gb], ['next', gb]] + [['next', ga]] * nframes[ga] + [[how, ga], ['next', gb], ['read', 77]]
+            yield {'actions': acts, 'finish': [['exhaust', gb]], 'pset': 3}
+            yield {'actions': [['enter']] + acts + [['exit']], 'finish': [['close', gb]], 'pset': 3}
+            yield {'actions': acts[:-2] + [['write', 5, -3], ['next', gb]], 'finish': [['drop', gb]], 'pset': 3}
     for pset in (1, 2):
         for order in ([0, 1, 0, 1, 2, 0, 1, 2, 2], [1, 1, 0, 2, 0, 1, 2, 0]):
             acts = [['start', 0], ['start', 1], ['start', 2]] + [['next', g] for g in order]
@@ -460,6 +471,9 @@ def task_fixed(ctx, col):
 
 def task_enum(ctx, col, shard, L):
     enum_search(ctx, col, (s for i, s in enumerate(enum_specs(L)) if i % NSHARDS == shard), lambda s: execute(ctx, s))
+    # the same schedules, one action shorter, with generators of one / two frames (parameter set 3): here 'next' twice is the end
+    short = (dict(s, pset=3) for s in enum_specs(L - 1) if s.get('hmode', 'r+') == 'r+')
+    enum_search(ctx, col, (s for i, s in enumerate(short) if i % NSHARDS == shard), lambda s: execute(ctx, s))
 
 
 def task_random(ctx, col, shard, n):
